@@ -68,6 +68,7 @@ def require_detF(vk, F):
 
 
 SOLID = [dict(field=f, hyper=h) for f in ("3d", "2d", "planestrain", "axisymmetric") for h in (True, False)]
+SOLID += [dict(field=f, hyper=True, state=True) for f in ("3d", "planestrain")]  # material with stored state variables
 
 
 @contract("C01", "solidbody", configs=SOLID)
@@ -91,6 +92,23 @@ def solidbody(vk, cfg):
         elif np.any(f.radius <= 0.05):
             raise Skip("radius")
     fc = fem.FieldContainer([f])
+    if cfg.get("state"):
+        # history-dependent material (C03 contract with stored state z): vector and matrix are evaluated at the
+        # COMMITTED state variables; assembling commits nothing (the tentative new state is kept aside)
+        from vk.stubs import StubStateMaterial
+
+        z = vk.reals("z", (2, NQ, cells.shape[0]), near=0.2, spread=0.1)
+        z0 = vk.snapshot(z)
+        umat = StubStateMaterial(vk, dim=3, nstate=2)
+        body = fem.SolidBody(umat, fc, statevars=z)
+        r, K = assemble_pair(vk, body, fc)
+        tangent_obligations(vk, r, K, unknowns(fc), symmetric=True, label="state/")
+        vk.frame_unchanged("state/committed statevars after vector+matrix", body.results.statevars, z0)
+        vk.ensures_eq("state/tentative statevars == material's new state at (F, committed state)", body.results._statevars, umat.gradient([*body.results.kinematics, z])[-1])
+        r2, K2 = assemble_pair(vk, body)
+        vk.ensures_eq("state/vector(cached)==vector(field)", r2, r)
+        vk.ensures_eq("state/matrix(cached)==matrix(field)", K2, K)
+        return
     umat = StubMaterial(vk, dim=2 if kind == "2d" else 3, hyperelastic=cfg["hyper"])
     body = fem.SolidBody(umat, fc)
     r, K = assemble_pair(vk, body, fc)
